@@ -735,6 +735,9 @@ def run(ctx):
     run_r5(ctx, r5)
     r12 = ctx.rule("C06-R12", "a number token contains at least one digit: consumed only after the scanner's end offset was found different from its start offset", floor=5)
     run_r12(ctx, r12)
+    from . import builders
+    r13 = ctx.rule("C06-R13", "ignore_header (cnf / wcnf / gcnf Config) is set by its own setter only: the counts of a header are unenforced exactly when the caller asked for it", floor=6)
+    builders.run(ctx, r13, ["flussab_cnf::cnf::Config", "flussab_cnf::wcnf::Config", "flussab_cnf::gcnf::Config"], 3)
     r11 = ctx.rule("C06-R11", "the declared variable count is capped at the literal type's maximum in all three DIMACS header parsers", floor=3)
     run_r11(ctx, r11)
     r10 = ctx.rule("C06-R10", "justice literals are filed under a property only while it holds fewer than its declared number (test of the current index dominates the push)", floor=2)
